@@ -305,25 +305,26 @@ Section LoopFacts.
     destruct (rec (ftype f) (field_arg kv f)) as [[|]| |]; cbn; try discriminate; try assumption.
   Qed.
 
-  (** one branch accepts (given enough fuel), no branch raises: the union accepts *)
-  Lemma any_branch_vok v bs b : In b bs -> vok (rec b (Some v)) ->
-    Forall (fun b' => rec b' (Some v) <> Err) bs -> vok (any_branch rec v bs).
+  (** one branch accepts (given enough fuel) and passes the "-type" filter, no branch raises: the union accepts *)
+  Lemma any_branch_vok pass v bs b : In b bs -> pass b = true -> vok (rec b (Some v)) ->
+    Forall (fun b' => rec b' (Some v) <> Err) bs -> vok (any_branch rec pass v bs).
   Proof.
-    intros Hin Hb Hall. induction Hall as [|b' bs H _ IH]; [contradiction|]. cbn.
+    intros Hin Hp Hb Hall. induction Hall as [|b' bs H _ IH]; [contradiction|]. cbn.
     destruct Hin as [->|Hin].
-    - destruct Hb as [Hb|Hb]; rewrite Hb; cbn; [left|right]; reflexivity.
-    - destruct (rec b' (Some v)) as [[|]| |]; cbn; [left; reflexivity|auto|contradiction|right; reflexivity].
+    - rewrite Hp. cbn. destruct Hb as [Hb|Hb]; rewrite Hb; cbn; [left|right]; reflexivity.
+    - destruct (pass b'); cbn; [|auto].
+      destruct (rec b' (Some v)) as [[|]| |]; cbn; [left; reflexivity|auto|contradiction|right; reflexivity].
   Qed.
 
-  Lemma any_branch_noerr v bs : Forall (fun b' => rec b' (Some v) <> Err) bs -> any_branch rec v bs <> Err.
+  Lemma any_branch_noerr pass v bs : Forall (fun b' => rec b' (Some v) <> Err) bs -> any_branch rec pass v bs <> Err.
   Proof.
-    induction 1 as [|b' bs H _ IH]; cbn; [discriminate|].
+    induction 1 as [|b' bs H _ IH]; cbn; [discriminate|]. destruct (pass b'); cbn; [|assumption].
     destruct (rec b' (Some v)) as [[|]| |]; cbn; try discriminate; try assumption.
   Qed.
 
-  Lemma any_branch_nofuel v bs : Forall (fun b' => rec b' (Some v) <> OutOfFuel) bs -> any_branch rec v bs <> OutOfFuel.
+  Lemma any_branch_nofuel pass v bs : Forall (fun b' => rec b' (Some v) <> OutOfFuel) bs -> any_branch rec pass v bs <> OutOfFuel.
   Proof.
-    induction 1 as [|b' bs H _ IH]; cbn; [discriminate|].
+    induction 1 as [|b' bs H _ IH]; cbn; [discriminate|]. destruct (pass b'); cbn; [|assumption].
     destruct (rec b' (Some v)) as [[|]| |]; cbn; try discriminate; try assumption.
   Qed.
 
@@ -418,6 +419,71 @@ Lemma dict_get_tfree kv k v : tfree (PDict kv) -> dict_get kv k = Some v -> tfre
 Proof.
   intros H. apply tfree_dict in H. induction H as [|[k' v'] kv [_ Hv] _ IH]; cbn; [discriminate|].
   destruct k'; try exact IH. destruct (bytes_eqb s k); [intros E; injection E as <-; exact Hv|exact IH].
+Qed.
+
+
+(** generated values carry no "-type" entry: map keys are ten letters, record keys are the field names *)
+Lemma gen_entries_get_other rec s k : length k <> 10%nat ->
+  forall n acc rs kv rs', gen_entries rec n s acc rs = Ok (kv, rs') -> dict_get kv k = dict_get acc k.
+Proof.
+  intros Hk. induction n as [|n IH]; cbn [gen_entries]; intros acc rs kv rs' H.
+  - injection H as <- <-. reflexivity.
+  - destruct (gen_utf8 rs) as [[k0 r1]| |] eqn:E0; cbn [bind] in H; try discriminate.
+    destruct (rec s r1) as [[v r2]| |]; cbn [bind] in H; try discriminate.
+    rewrite (IH _ _ _ _ H). apply dict_get_set_other. intros ->.
+    unfold gen_utf8 in E0. apply rand_letters_inv in E0. contradiction.
+Qed.
+
+Lemma gen_fields_get_other rec k : forall fs acc rs kv rs', ~ In k (map (fun f => fname f) fs) ->
+  gen_fields rec fs acc rs = Ok (kv, rs') -> dict_get kv k = dict_get acc k.
+Proof.
+  induction fs as [|f fs IH]; cbn [gen_fields map]; intros acc rs kv rs' Hn H.
+  - injection H as <- <-. reflexivity.
+  - destruct (rec (ftype f) rs) as [[v r1]| |]; cbn [bind] in H; try discriminate.
+    rewrite (IH _ _ _ _ ltac:(cbn in Hn; tauto) H). apply dict_get_set_other. intros ->. apply Hn. left. reflexivity.
+Qed.
+
+Lemma type_hint_none kv : dict_get kv (s2b "-type") = None -> type_hint (PDict kv) = None.
+Proof. intros H. cbn [type_hint]. rewrite H. reflexivity. Qed.
+
+Lemma hint_pass_none e v c : type_hint v = None -> hint_pass e v c = true.
+Proof. intros H. unfold hint_pass. rewrite H. reflexivity. Qed.
+
+Theorem gen_nohint e : wf_env e -> forall f s rs v rs', wf_schema e s -> gen f e s rs = Ok (v, rs') -> type_hint v = None.
+Proof.
+  intros We. induction f as [|f IH]; intros s rs v rs' Ws H; [discriminate|].
+  assert (LI : forall lt rs v rs', gen_int lt rs = Ok (v, rs') -> type_hint v = None)
+    by (intros lt0 r0 v0 r0' H0; apply gen_int_range in H0; destruct H0 as (z & -> & _); reflexivity).
+  assert (LL : forall lt rs v rs', gen_long lt rs = Ok (v, rs') -> type_hint v = None)
+    by (intros lt0 r0 v0 r0' H0; apply gen_long_range in H0; destruct H0 as (z & -> & _); reflexivity).
+  assert (LS : forall lt rs v rs', gen_string lt rs = Ok (v, rs') -> type_hint v = None)
+    by (intros lt0 r0 v0 r0' H0; apply gen_string_str in H0; destruct H0 as (z & ->); reflexivity).
+  destruct s; cbn [gen] in H.
+  - injection H as <- <-. reflexivity.
+  - apply gen_bool_bool in H. destruct H as (b & ->). reflexivity.
+  - eapply LI; eauto.
+  - eapply LL; eauto.
+  - apply gen_float_flt in H. destruct H as (b & -> & _). reflexivity.
+  - apply gen_float_flt in H. destruct H as (b & -> & _). reflexivity.
+  - apply gen_bytes_len in H. destruct H as (b & -> & _). reflexivity.
+  - eapply LS; eauto.
+  - apply gen_bytes_len in H. destruct H as (b & -> & _). reflexivity.
+  - apply gen_enum_sym in H. destruct H as (x & -> & _). reflexivity.
+  - destruct (gen_items (gen f e) ITEMS s rs) as [[l r]| |]; cbn [bind] in H; try discriminate. injection H as <- <-. reflexivity.
+  - destruct (gen_entries (gen f e) ITEMS s [] rs) as [[kv r]| |] eqn:E; cbn [bind] in H; try discriminate. injection H as <- <-.
+    apply type_hint_none. rewrite (gen_entries_get_other _ _ (s2b "-type") ltac:(cbn; lia) _ _ _ _ _ E). reflexivity.
+  - destruct (randint 0 (len bs - 1) rs) as [[i r]| |]; cbn [bind] in H; try discriminate.
+    destruct (nthZ bs i) as [b|] eqn:E; [|discriminate].
+    pose proof (sall_union _ _ Ws) as HB. apply nthZ_In in E. rewrite Forall_forall in HB. eapply IH; [exact (HB _ E)|exact H].
+  - destruct (gen_fields (gen f e) fs [] rs) as [[kv r]| |] eqn:E; cbn [bind] in H; try discriminate. injection H as <- <-.
+    pose proof (sall_here _ _ Ws) as HN. cbn in HN. destruct HN as [_ HD].
+    apply type_hint_none.
+    assert (Hn : ~ In (s2b "-type") (map (fun f => fname f) fs)); [|rewrite (gen_fields_get_other _ _ _ _ _ _ _ Hn E); reflexivity].
+    intros Hin. apply in_map_iff in Hin. destruct Hin as (g & Hg1 & Hg2). rewrite Forall_forall in HD. apply HD in Hg2. tauto.
+  - destruct (lookup e n) as [s'|] eqn:E; [|discriminate]. eapply IH; [exact (We _ _ E)|exact H].
+  - pose proof (sall_annot _ _ _ Ws) as Ws'.
+    destruct s; try discriminate; try (eapply IH; [exact Ws'|exact H]).
+    + eapply LI; eauto. + eapply LL; eauto. + eapply LS; eauto.
 Qed.
 
 (* ------------------------------------------------------------------ *)
@@ -535,8 +601,8 @@ Section Main.
       assert (Hb : wf_schema e b) by (rewrite Forall_forall in HB; apply HB; exact E).
       destruct (IH _ _ _ _ Hb H) as [Ht Hc]. split; [exact Ht|].
       intros [|fv]; [right; reflexivity|]. cbn [validate].
-      assert (V : vok (any_branch (validate fv o e) v bs)).
-      { eapply any_branch_vok; [exact E|apply Hc|].
+      assert (V : vok (any_branch (validate fv o e) (hint_pass e v) v bs)).
+      { eapply any_branch_vok; [exact E|apply hint_pass_none; eapply gen_nohint; eauto|apply Hc|].
         eapply Forall_impl; [|exact HB]. intros b' Hb'. apply validate_noerr; assumption. }
       destruct v; try exact V. exfalso; exact Ht.
     - (* record *)
@@ -1321,6 +1387,7 @@ Proof.
     - cbn. constructor; [intros []|constructor]. - cbn. constructor; [|constructor]. split; [discriminate|exact I]. }
   eexists. split; [vm_compute; reflexivity|].
   intros [|fv]; [reflexivity|]. unfold D_union. cbn [validate any_branch].
+  match goal with |- context [hint_pass ?e ?v ?c] => change (hint_pass e v c) with true end. cbn [negb].
   match goal with |- context [validate fv o D_env (SRef DR) (Some (PDict ?kv))] =>
     destruct (default_cycle_never o fv kv eq_refl eq_refl eq_refl) as (_ & _ & A & _); rewrite A end.
   reflexivity.
